@@ -886,10 +886,7 @@ static void case_ellipse(vh::Ctx & c, vh::Rng & r)
 // ------------------------------------------------------------------------------------------
 static void one_case(vh::Ctx & c, uint64_t idx)
 {
-  // The seed is hashed first: vh::mix(seed, idx) with a small seed merely shifts the index, so the
-  // runs for seeds 0, 1, 2, ... would revisit the same cases.  Still a pure function of (seed, idx).
-  uint64_t s0 = c.seed;
-  vh::Rng r(vh::splitmix64(s0), idx);
+  vh::Rng r(c.seed, idx);
   int fam = static_cast<int>(r.range(0, 9));
   if (fam <= 2) {case_reduce(c, r);} else if (fam <= 6) {case_se3(c, r);} else {case_ellipse(c, r);}
 }
